@@ -78,7 +78,14 @@ func (e *FnEnc) call(v ssa.Value, c *ssa.CallCommon, in ssa.Instruction) {
 		e.havocCall(v, key, append([]Val{recv}, args...), in)
 		return
 	}
-	if f := c.StaticCallee(); f != nil {
+	f := c.StaticCallee()
+	if f == nil && !c.IsInvoke() {
+		if gf, ok := e.W.globalInitFunc(c.Value); ok {
+			f = gf
+			e.note("A12 call through the package-level function variable " + c.Value.(*ssa.UnOp).X.Name() + ", assigned only by its package initialiser: treated as a call of " + calleeName(gf))
+		}
+	}
+	if f != nil {
 		name := calleeName(f)
 		if mk, ok := c.Value.(*ssa.MakeClosure); ok {
 			// direct call of a closure: free variables are bound to the captured cells
